@@ -39,7 +39,8 @@ func (r *run) dress(e Ev) *dressed {
 func (d *dressed) one(g *kernel.Rng, v interface{}, depth int) interface{} {
 	if depth > 0 {
 		// Inside a composite value everything stays generic JSON: the library keeps composite values
-		// as they are given (json_values_test.go pins that), so nothing is demanded of their inside.
+		// as they are given (json_values_test.go pins that), so nothing is demanded of their inside
+		// (empty arrays may still arrive as nil slices, see below).
 		if _, isMap := v.(map[string]interface{}); !isMap {
 			if _, isArr := v.([]interface{}); !isArr {
 				return v
@@ -93,6 +94,13 @@ func (d *dressed) one(g *kernel.Rng, v interface{}, depth int) interface{} {
 		}
 		return out
 	case []interface{}:
+		if len(x) == 0 && g.Chance(1, 2) {
+			// an empty array handed over as what Go programs usually have: a nil slice (an unset []T field, a
+			// `var tags []string`). JSON renders it as null, so the library has to refuse it or store [] -
+			// on every replica alike.
+			r := []string(nil)
+			return r
+		}
 		if len(x) > 0 && g.Chance(1, 3) {
 			// a typed slice when every element is a small non-negative integer
 			ok := true
